@@ -146,7 +146,7 @@ func subsetSeenDecided(run *hx.Run, r *hx.Rng, idx int) {
 		ids = append(ids, spectypes.OperatorID(i))
 	}
 	pattern := (idx / 2) % (1 << uint(hx.Min(q, 5))) // which of the (first five) signers already have state
-	adv := (idx / 3) % 4                           // 0 same slot+round, 1 round 2 of the slot, 2 next slot, 3 mixed
+	adv := (idx / 3) % 4                             // 0 same slot+round, 1 round 2 of the slot, 2 next slot, 3 mixed
 	c := NewCase(run, w, false, fmt.Sprintf("targeted/subset-seen-decided/p%d/a%d", pattern, adv))
 	now := w.SlotStart(s).Add(5 * time.Second)
 	for bit, op := range ids {
